@@ -1,7 +1,7 @@
 """C17: schemas in several equivalent notations, their Coq `sch` terms (coq/Norm.v), the abstraction of validated
 oai.Schema objects back to `sch` and of built property objects to `tree`.  Every random choice comes from the rng passed in."""
 from __future__ import annotations
-import random
+import copy, random
 from lib.common import cstr, cbool, copt
 from lib.vals import cjval, cevalue
 
@@ -9,7 +9,7 @@ REF = "#/components/schemas/"
 JTY = {"string": "JString", "number": "JNumber", "integer": "JInteger", "boolean": "JBoolean", "array": "JArray", "object": "JObject", "null": "JTNull"}
 
 # keywords the AST knows by name; anything else only sets o_extra
-KNOWN = {"$ref", "type", "nullable", "enum", "anyOf", "oneOf", "allOf", "items", "format", "default", "const", "properties", "title"}
+KNOWN = {"$ref", "type", "nullable", "enum", "anyOf", "oneOf", "allOf", "items", "prefixItems", "format", "default", "const", "properties", "title"}
 
 
 # ------------------------------------------------------------------ dict -> Coq sch
@@ -25,7 +25,7 @@ def csch(s: dict) -> str:
     d = copt(s.get("default"), cjval)
     o = ("{| o_const := %s; o_props := %s; o_title := %s; o_extra := %s |}"
          % (cbool(s.get("const") is not None), cbool(bool(s.get("properties"))), copt(s.get("title"), cstr), cbool(any(k not in KNOWN for k in s))))
-    return f"(SSch {ty} {cbool(bool(s.get('nullable')))} {en} {lst('anyOf')} {lst('oneOf')} {lst('allOf')} {items} {fmt} {d} {o})"
+    return f"(SSch {ty} {cbool(bool(s.get('nullable')))} {en} {lst('anyOf')} {lst('oneOf')} {lst('allOf')} {items} {lst('prefixItems')} {fmt} {d} {o})"
 
 
 # ------------------------------------------------------------------ validated oai.Schema -> Coq sch (nullable is printed false: never read after validation)
@@ -43,10 +43,10 @@ def csch_validated(x, extra_of=None) -> str:
     fmt = copt(x.schema_format, cstr)
     d = copt(x.default, cjval)
     fs = x.model_fields_set
-    known_fields = {"type", "nullable", "enum", "anyOf", "oneOf", "allOf", "items", "schema_format", "default", "const", "properties", "title"}
+    known_fields = {"type", "nullable", "enum", "anyOf", "oneOf", "allOf", "items", "prefixItems", "schema_format", "default", "const", "properties", "title"}
     o = ("{| o_const := %s; o_props := %s; o_title := %s; o_extra := %s |}"
          % (cbool(x.const is not None), cbool(bool(x.properties)), copt(x.title, cstr), cbool(any(f not in known_fields for f in fs))))
-    return f"(SSch {ty} {cbool(bool(x.nullable))} {en} {lst(x.anyOf)} {lst(x.oneOf)} {lst(x.allOf)} {items} {fmt} {d} {o})"
+    return f"(SSch {ty} {cbool(bool(x.nullable))} {en} {lst(x.anyOf)} {lst(x.oneOf)} {lst(x.allOf)} {items} {lst(x.prefixItems)} {fmt} {d} {o})"
 
 
 # ------------------------------------------------------------------ property object -> Coq tree
@@ -103,6 +103,25 @@ PNAMES = ["p", "my_prop", "Val", "a-b", "x1", "class", "9lives", "camelCase"]
 FORMATS = [None, None, None, "date", "date-time", "uuid", "binary", "byte", "email"]
 
 
+def respell(s, rng):
+    """the same schema in another of the notations C17 calls equivalent (only rewrites whose tree equality is proved for every
+    position: nullable <-> type list, reference <-> wrapper without extra default); unchanged when none applies"""
+    s = copy.deepcopy(s)
+    if set(s) == {"$ref"}:
+        return {rng.choice(["allOf", "oneOf", "anyOf"]): [s]}
+    t, nl = s.get("type"), s.get("nullable")
+    if isinstance(t, str) and nl is True:
+        s.pop("nullable")
+        s["type"] = [t, "null"]
+    elif isinstance(t, list) and len(t) == 2 and t[1] == "null" and t[0] != "null" and not nl:
+        s["type"], s["nullable"] = t[0], True
+    else:
+        sub = (s.get("allOf") or []) + (s.get("anyOf") or []) + (s.get("oneOf") or [])
+        if len(sub) == 1 and isinstance(sub[0], dict) and set(sub[0]) == {"$ref"} and s.get("default") is None and (t is not None or not nl):
+            return dict(sub[0])
+    return s
+
+
 class SGen:
     """random schemas over the notations C17 is about. valid=True avoids shapes whose outcome depends on default conversion."""
 
@@ -147,7 +166,20 @@ class SGen:
         elif t == "boolean":
             dflt = True
         elif t == "array":
-            if rng.random() < 0.93:
+            r = rng.random()
+            if r < 0.3:
+                # 3.1 tuple array: prefixItems (+ items). The rest schema is often EQUAL to a prefix member - in the same spelling
+                # or in an equivalent one - and must still become its own union member
+                p1 = self.schema(d - 1)
+                s["prefixItems"] = [p1] + ([self.schema(d - 1)] if rng.random() < 0.3 else [])
+                r2 = rng.random()
+                if r2 < 0.35:
+                    s["items"] = copy.deepcopy(p1)
+                elif r2 < 0.6:
+                    s["items"] = respell(p1, rng)
+                elif r2 < 0.85:
+                    s["items"] = self.schema(d - 1)
+            elif r < 0.95:
                 s["items"] = self.schema(d - 1)
         elif t == "object":
             if rng.random() < 0.8:
@@ -256,6 +288,8 @@ class SGen:
         for _ in range(k):
             r = rng.random()
             ms.append(self.ref() if r < 0.3 else self.schema(d - 1))
+        if rng.random() < 0.25:
+            ms.insert(rng.randint(0, len(ms)), copy.deepcopy(ms[0]) if rng.random() < 0.5 else respell(ms[0], rng))
         s = {}
         r = rng.random()
         if r < 0.4:
